@@ -862,4 +862,69 @@ theorem viaState_head (σ : Id → Nat) (i : Id) (o : Obj) : (viaState σ i o).h
     · simp [viaState, getstate, setstate, renObj, c]
   | _ => simp [viaState, getstate, setstate, renObj]
 
+/-! ### concrete graphs used as witnesses (non-vacuity examples of `LabreaProps/C20.lean`)
+
+  `@dataset def f(a=Option('A'))` / `d = dataset(_f)` with one registered overload, reduced to the
+  attributes that matter.  Object 5 is the user function; 0 the Dataset (`__wrapped__` → 5);
+  1 its `Overloaded` (lock registered under its own id); 2 the lookup dict `{'one': <Option>}`;
+  3/4 `FunctionApplication` / `Value` holding the function; 6 the registered `Option`;
+  7 the `MemoryCache` with one warm entry (8 = its dict, 9 = the cached list). -/
+
+def exHeap : Heap := [
+  (0, ⟨.inst "Dataset" ["overloads", "cache", "__qualname__", "__wrapped__"],
+        [.ref 1, .ref 7, .sc (.str "f"), .ref 5]⟩),
+  (1, ⟨.inst "Overloaded" ["dispatch", "lookup", "default", "_lock"],
+        [.sc (.str "K"), .ref 2, .ref 3, .lock 1]⟩),
+  (2, ⟨.dict, [.sc (.str "one"), .ref 6]⟩),
+  (3, ⟨.inst "FunctionApplication" ["func"], [.ref 4]⟩),
+  (4, ⟨.inst "Value" ["value"], [.ref 5]⟩),
+  (5, ⟨.func "m.f", []⟩),
+  (6, ⟨.inst "Option" ["key"], [.sc (.str "C")]⟩),
+  (7, ⟨.inst "MemoryCache" ["_cache"], [.ref 8]⟩),
+  (8, ⟨.dict, [.sc (.str "[{\"A\": 1}]"), .ref 9]⟩),
+  (9, ⟨.list, [.sc (.str "f"), .sc (.int 1)]⟩)]
+
+/-- explicit form `d = dataset(f)`: the name `m.f` still denotes the function -/
+def nsExplicit : Namespace := nsOf [("m.f", 5), ("m.d", 0)]
+/-- decorator form `@dataset def f`: the name `m.f` now denotes the Dataset -/
+def nsDecorator : Namespace := nsOf [("m.f", 0)]
+def recvDefined : Defined := definedOf ["m.f", "m.d"]
+
+/-- what `loads(dumps(d))` is expected to build (ids = memo numbers, finished objects first) -/
+def exCopy : Heap := [
+  (3, ⟨.inst "Option" ["key"], [.sc (.str "C")]⟩),
+  (2, ⟨.dict, [.sc (.str "one"), .ref 3]⟩),
+  (6, ⟨.func "m.f", []⟩),
+  (5, ⟨.inst "Value" ["value"], [.ref 6]⟩),
+  (4, ⟨.inst "FunctionApplication" ["func"], [.ref 5]⟩),
+  (1, ⟨.inst "Overloaded" ["dispatch", "lookup", "default", "_lock"],
+        [.sc (.str "K"), .ref 2, .ref 4, .lock 1]⟩),
+  (9, ⟨.list, [.sc (.str "f"), .sc (.int 1)]⟩),
+  (8, ⟨.dict, [.sc (.str "[{\"A\": 1}]"), .ref 9]⟩),
+  (7, ⟨.inst "MemoryCache" ["_cache"], [.ref 8]⟩),
+  (0, ⟨.inst "Dataset" ["overloads", "cache", "__qualname__", "__wrapped__"],
+        [.ref 1, .ref 7, .sc (.str "f"), .ref 6]⟩)]
+
+theorem exRecv : ∀ n i, nsExplicit n = some i → recvDefined n = true := by
+  intro n i hn
+  by_cases c1 : n = "m.f"
+  · subst c1; decide
+  · by_cases c2 : n = "m.d"
+    · subst c2; decide
+    · have : nsExplicit n = none := by
+        simp [nsExplicit, nsOf, Ne.symm c1, Ne.symm c2]
+      rw [this] at hn; cases hn
+
+theorem exReachOv : Reach exHeap 0 1 :=
+  Reach.step (o := ⟨.inst "Dataset" ["overloads", "cache", "__qualname__", "__wrapped__"],
+    [.ref 1, .ref 7, .sc (.str "f"), .ref 5]⟩) (Reach.refl 0) (by decide) (by decide)
+
+theorem exReachFn : Reach exHeap 0 5 := by
+  have r3 : Reach exHeap 0 3 := Reach.step (o := ⟨.inst "Overloaded"
+    ["dispatch", "lookup", "default", "_lock"], [.sc (.str "K"), .ref 2, .ref 3, .lock 1]⟩)
+    exReachOv (by decide) (by decide)
+  have r4 : Reach exHeap 0 4 := Reach.step (o := ⟨.inst "FunctionApplication" ["func"], [.ref 4]⟩)
+    r3 (by decide) (by decide)
+  exact Reach.step (o := ⟨.inst "Value" ["value"], [.ref 5]⟩) r4 (by decide) (by decide)
+
 end Labrea.Pickle
